@@ -66,7 +66,7 @@ package responsemanager
 //@ func ResponseManager.abortRequest
 //@   lenient
 //@   requires invRS(rm)
-//@   modifies rm.inProgressResponses[*], rm.inProgressResponses[requestID].state, prot, alloc, nRemove
+//@   modifies rm.inProgressResponses[*], rm.inProgressResponses[requestID].state, prot, alloc, nRemove, errSigTok, errSigVal
 //@   -- C23: aborting a known response takes its (possibly still pending) task out of the queue
 //@   ensures old(requestID in rm.inProgressResponses) ==> nRemove == old(nRemove) + 1
 //@   callsite TaskQueue.Remove: assert $t == requestID && $p == response.peer
@@ -126,12 +126,27 @@ package responsemanager
 
 //@ -- C05: a network failure retires a response that is not running (its executor is not going to report anything any more),
 //@ -- also when it was only waiting for its final message to be sent; a requestor cancel retires a non-running response
+//@ -- token model of a response's error-signal channel (capacity 1), in the two functions that use it on the manager's
+//@ -- side: what abortRequest put there stays until somebody receives it; a receive takes it, the default arm of a select
+//@ -- is taken only when there is nothing to take
+//@ ghost errSigTok map[ref]int       -- error signals waiting on the channel
+//@ ghost errSigVal map[ref]error     -- the waiting signal
+//@ onsend error(ch, v) in abortRequest: errSigTok := upd(errSigTok, ch, 1) ; errSigVal := upd(errSigVal, ch, v)
+//@ onsend recv:error(ch, v) in finishTask: assume errSigTok[ch] > 0 && v == errSigVal[ch] ; errSigTok := upd(errSigTok, ch, errSigTok[ch] - 1)
+//@ onsend default:error(ch, v) in finishTask: assume errSigTok[ch] == 0
 //@ func ResponseManager.finishTask
 //@   lenient
 //@   safety off
 //@   requires invRS(rm)
-//@   modifies rm.inProgressResponses[*], inProgressResponseStatus.state, prot, alloc, nTaskDone
+//@   modifies rm.inProgressResponses[*], inProgressResponseStatus.state, prot, alloc, nTaskDone, errSigTok
 //@   ensures invRS(rm)
+//@   -- C05: the executor polls its error signal only between blocks. A network failure signalled after its last poll finds
+//@   -- the response stream already closed (no terminal status can be queued for it any more), so the end of the task is the
+//@   -- last step that can retire the response: it must, whatever the task itself reported (short of a pause)
+//@   ensures old(task.Topic in rm.inProgressResponses) && !(err != nil && dyntype(err) == typetag("hooks.ErrPaused"))
+//@           && old(errSigTok[rm.inProgressResponses[task.Topic].signals.ErrSignal]) > 0
+//@           && old(errSigVal[rm.inProgressResponses[task.Topic].signals.ErrSignal]) == queryexecutor.ErrNetworkError
+//@           ==> !(task.Topic in rm.inProgressResponses)
 //@   -- C23/C21: a finished task is ALWAYS reported done to the queue (whatever became of its response), exactly once
 //@   ensures nTaskDone == old(nTaskDone) + 1
 //@   callsite TaskQueue.TaskDone: assert $p == p && $task == task
